@@ -3,21 +3,28 @@
    with a TLV stream of at most MaxRecs records over the abstract types of a kind with
    nk <= MaxNK known TLVs (every order relation: ascending / duplicate / out-of-order arises from
    the choice of types), at most one header/length/value defect per stream, every tail class,
-   every fixed-part class and every message-type class; it checks that the code-shaped scanner
+   every fixed-part class and every message-type class, and every size class (relative to the
+   codec-internal boundaries 64 / 253 / 4096 / 65535) of a variable-length field of a clean
+   message, of an unknown odd TLV value and of the payload of an unknown message type; it checks that the code-shaped scanner
    and the BOLT-1 rule list agree (Agree), that accepted streams are prefix closed (PrefixClosed),
    and prints each message with its verdict as a case for the Rust engine (Emit). *)
 EXTENDS Wire, TLC, Json
 
 CONSTANTS MaxNK, MaxRecs
 
-VARIABLES tlvkind, nk, tid, fixed, inner, recs, tail, dirty
-vars == <<tlvkind, nk, tid, fixed, inner, recs, tail, dirty>>
+VARIABLES tlvkind, nk, tid, fixed, inner, recs, tail, size, dirty
+vars == <<tlvkind, nk, tid, fixed, inner, recs, tail, size, dirty>>
 
 Msg == [opaque |-> FALSE, tlvkind |-> tlvkind, nk |-> nk, tid |-> tid, fixed |-> fixed, inner |-> inner,
-        recs |-> recs, tail |-> tail]
+        recs |-> recs, tail |-> tail, size |-> size]
 
-Init ==
-  /\ recs = <<>> /\ dirty = FALSE
+CleanRec(t) == [t |-> t, enc |-> "min", fit |-> "exact", val |-> "ok"]
+RECURSIVE AllKnown(_)
+AllKnown(n) == IF n = 0 THEN <<>> ELSE Append(AllKnown(n - 1), CleanRec(KnownT(n)))
+Sizes(at) == {s \in SizeClass : s.at = at /\ CanFit(s)}
+
+InitShape ==
+  /\ recs = <<>> /\ size = NoSize
   /\ \/ /\ tlvkind = TRUE /\ nk \in 0..MaxNK /\ tid = "known" /\ fixed \in FixedClass /\ tail = "none" /\ inner = "none"
      \/ /\ tlvkind = FALSE /\ nk = 0 /\ tid = "known" /\ inner = "none"
         /\ \/ fixed \in FixedClass /\ tail = "none"
@@ -27,10 +34,27 @@ Init ==
      \/ /\ tlvkind \in BOOLEAN /\ nk = 0 /\ tid = "known" /\ fixed = "complete" /\ tail = "none"
         /\ inner \in InnerClass \ {"none"}
 
-Open == tlvkind /\ tid = "known" /\ fixed = "complete" /\ inner = "none" /\ tail = "none" /\ Len(recs) < MaxRecs
+(* Size classes: one variable-length field of an otherwise clean, complete message (all known TLVs
+   present) / the value of an unknown odd TLV after them / the payload of an unknown message type. *)
+InitSized ==
+  /\ fixed = "complete" /\ tail = "none" /\ inner = "none"
+  /\ \/ /\ tid = "known" /\ size \in Sizes("field")
+        /\ \/ tlvkind = TRUE /\ nk \in 0..MaxNK
+           \/ tlvkind = FALSE /\ nk = 0
+        /\ recs = AllKnown(nk)
+     \/ /\ tid = "known" /\ size \in Sizes("odd_tlv")
+        /\ tlvkind = TRUE /\ nk \in 0..MaxNK
+        /\ recs = Append(AllKnown(nk), CleanRec(UnkOddT(nk)))
+     \/ /\ tid \in TidClass \ {"known"} /\ size \in Sizes("field")
+        /\ tlvkind = FALSE /\ nk = 0 /\ recs = <<>>
+
+Init == dirty = FALSE /\ (InitShape \/ InitSized)
+
+Open == /\ tlvkind /\ tid = "known" /\ fixed = "complete" /\ inner = "none" /\ tail = "none"
+        /\ size = NoSize /\ Len(recs) < MaxRecs
 
 Add(r) == /\ recs' = Append(recs, r)
-          /\ UNCHANGED <<tlvkind, nk, tid, fixed, inner, tail>>
+          /\ UNCHANGED <<tlvkind, nk, tid, fixed, inner, tail, size>>
 
 AddKnown ==
   /\ Open /\ \E i \in 1..nk : Add([t |-> KnownT(i), enc |-> "min", fit |-> "exact", val |-> "ok"])
@@ -56,14 +80,25 @@ AddBadValue ==
   /\ dirty' = TRUE
 CutTail ==
   /\ tlvkind /\ tid = "known" /\ fixed = "complete" /\ inner = "none" /\ tail = "none" /\ ~dirty
+  /\ size = NoSize
   /\ tail' \in {"partial_type", "type_only", "partial_len"}
-  /\ UNCHANGED <<tlvkind, nk, tid, fixed, inner, recs, dirty>>
+  /\ UNCHANGED <<tlvkind, nk, tid, fixed, inner, recs, size, dirty>>
 
 Next == AddKnown \/ AddUnknownOdd \/ AddUnknownEven \/ AddNonMinimal \/ AddOverrun \/ AddBadValue \/ CutTail
 Spec == Init /\ [][Next]_vars
 
 TypeOK == /\ \A i \in 1..Len(recs) : WellFormedRec(recs[i], nk)
           /\ tid \in TidClass /\ fixed \in FixedClass /\ tail \in TailClass /\ inner \in InnerClass
+          /\ size \in SizeClass
+
+(* The length of a field never decides acceptance: every sized message that can exist has the verdict
+   of its shape (a known clean message is accepted, an unknown type is judged by parity), and no
+   class of the 65535 boundary fits into a message. *)
+SizeNeutral ==
+  size # NoSize =>
+     /\ Verdict(Msg) = Verdict([Msg EXCEPT !.size = NoSize])
+     /\ (tid = "known" => Verdict(Msg) = "accept")
+     /\ size.bnd # 65535
 
 Agree == Verdict(Msg) = RuleVerdict(Msg)
 
